@@ -62,8 +62,12 @@ Definition from_sdmx (s : str) : dres period :=
 
 (* ------------------------------------------------------------------ ISO strings, (y, m, d), Python dates *)
 
+(* `year, month, day = self.to_ymd(...)`: unpacking the None returned for integer periods is a TypeError *)
+Definition unpack_ymd (r : dres (Z * Z * Z)) : dres (Z * Z * Z) :=
+  match r with Err ErrNone => Err ErrType | x => x end.
+
 Definition to_iso (pos : position) (p : period) : dres str :=
-  bind (to_ymd pos p) (fun '(y, m, d) => of_opt ErrValue (render (gen_to_iso y m d))).
+  bind (unpack_ymd (to_ymd pos p)) (fun '(y, m, d) => of_opt ErrValue (render (gen_to_iso y m d))).
 
 (* Period.from_iso_string(s, frequency=f): exactly three pieces *)
 Definition from_iso (f : Z) (s : str) : dres period :=
@@ -78,7 +82,7 @@ Definition from_iso (f : Z) (s : str) : dres period :=
 
 (* p.to_python_date(position): the date as (y, m, d); datetime.date rejects what is outside 1..9999 *)
 Definition to_pydate (pos : position) (p : period) : dres (Z * Z * Z) :=
-  bind (to_ymd pos p) (fun '(y, m, d) => if date_ok y m d then Ok (y, m, d) else Err ErrValue).
+  bind (unpack_ymd (to_ymd pos p)) (fun '(y, m, d) => if date_ok y m d then Ok (y, m, d) else Err ErrValue).
 
 (* Period.from_python_date(date, frequency=f) = from_ymd *)
 Definition from_pydate (f : Z) (t : Z * Z * Z) : dres period := let '(y, m, d) := t in from_ymd f y m d.
@@ -135,7 +139,7 @@ Definition eval_term (t : str * list Z) : dres period :=
 
 (* p.refrequent(f, position=pos) *)
 Definition refrequent (f : Z) (pos : position) (p : period) : dres period :=
-  bind (to_ymd pos p) (fun '(y, m, d) => from_ymd f y m d).
+  bind (unpack_ymd (to_ymd pos p)) (fun '(y, m, d) => from_ymd f y m d).
 
 (* ------------------------------------------------------------------ case runners *)
 
